@@ -276,6 +276,7 @@ type recStream struct {
 	short bool
 	reads map[int64][][2]int // goroutine-call id -> reads (attributed through curCall)
 	rng   uint64
+	gate  *rendezvous
 }
 
 func (r *recStream) byteAt(i int) byte {
@@ -296,7 +297,47 @@ type readLog struct {
 
 var curReads sync.Map // goroutine key -> *readLog
 
+// rendezvous is a scheduler gate inside the substituted random source: a Read returns only when the other calls
+// of the round have read too (or after a timeout), so that all of them are between "bytes taken" and "secret
+// encoded" at the same moment. Scratch memory shared between calls then shows with certainty, not by luck.
+type rendezvous struct {
+	mu      sync.Mutex
+	n, here int
+	ch      chan struct{}
+}
+
+func (b *rendezvous) arm(n int) {
+	b.mu.Lock()
+	b.n, b.here, b.ch = n, 0, make(chan struct{})
+	b.mu.Unlock()
+}
+
+func (b *rendezvous) wait() {
+	b.mu.Lock()
+	b.here++
+	ch := b.ch
+	if b.here >= b.n {
+		close(ch)
+		b.here, b.ch = 0, make(chan struct{})
+		b.mu.Unlock()
+		return
+	}
+	b.mu.Unlock()
+	select {
+	case <-ch:
+	case <-time.After(100 * time.Millisecond):
+	}
+}
+
 func (r *recStream) Read(p []byte) (int, error) {
+	n := r.read(p)
+	if g := r.gate; g != nil && currentLog() != nil {
+		g.wait()
+	}
+	return n, nil
+}
+
+func (r *recStream) read(p []byte) int {
 	r.mu.Lock()
 	defer r.mu.Unlock()
 	n := len(p)
@@ -315,7 +356,7 @@ func (r *recStream) Read(p []byte) (int, error) {
 		lg.bytes = append(lg.bytes, p[:n]...)
 	}
 	r.pos += n
-	return n, nil
+	return n
 }
 
 // attribution of reads to calls: each call runs on its own goroutine and registers its log under
@@ -333,7 +374,7 @@ func currentLog() *readLog {
 
 func doRandomSecret(scn string, alg uint8) Event {
 	e := newEvent("RandomSecret", scn)
-	e.X = map[string]any{"alg": int(alg)}
+	e.X = map[string]any{"alg": int(alg), "conc": false}
 	lg := &readLog{}
 	e.Y = map[string]any{"reads": [][2]int{}, "bytes": B{}}
 	invokeOn(&e, func() { curReads.Store(goid(), lg) }, func() { curReads.Delete(goid()) }, func() result {
